@@ -682,7 +682,10 @@ def propagate_case(draw):
     if draw(st.booleans()):
         obs = [draw(st.integers(-50, 50)) / 4.0 for _ in range(n)]
     return {"family": fam, "W": W, "p0": p0, "n_steps": n_steps,
-            "fmt": draw(st.sampled_from(FORMATS)), "observable": obs}
+            "fmt": draw(st.sampled_from(FORMATS)), "observable": obs,
+            # initial probabilities may arrive as a float64 vector, an integer one-hot vector or float32
+            "p0_kind": draw(st.sampled_from(["float64", "float64", "int_onehot", "float32"])),
+            "hot": draw(st.integers(0, n - 1))}
 
 
 def run_propagate(case):
@@ -691,6 +694,14 @@ def run_propagate(case):
     T = as_format(Td, case["fmt"])
     p0 = np.array(case["p0"], dtype=float)
     p0 /= p0.sum()
+    kind = case.get("p0_kind", "float64")
+    TSK = 1.0
+    if kind == "int_onehot":
+        p0 = np.zeros(n, dtype=np.int64)
+        p0[case["hot"]] = 1
+    elif kind == "float32":
+        p0 = p0.astype(np.float32)
+        TSK = 1e6            # single-precision input: rows are compared to 1e-6
     p0c = p0.copy()
     ns = case["n_steps"]
     obs = None if case["observable"] is None else np.array(case["observable"], dtype=float)
@@ -701,8 +712,8 @@ def run_propagate(case):
     require(np.array_equal(p0, p0c), "init_pops was modified")
     require(np.array_equal(dense(T), Td), "T was modified")
 
-    rows = [p0c.copy()]
-    p = p0c.copy()
+    rows = [p0c.astype(np.float64)]
+    p = p0c.astype(np.float64)
     for _ in range(ns - 1):
         q = np.zeros(n)
         for j in range(n):                       # literal n multiplications p <- p T
@@ -712,21 +723,78 @@ def run_propagate(case):
     rows = np.array(rows)
     want = rows if obs is None else rows @ obs
     require(series.shape == want.shape, "time series has the wrong shape", got=series.shape, want=want.shape)
-    require(np.max(np.abs(series - want)) <= 1e-12 * TS * max(1.0, float(np.max(np.abs(want)))),
+    require(np.max(np.abs(series - want)) <= 1e-12 * TS * TSK * max(1.0, float(np.max(np.abs(want)))),
             "ensemble at step k is not p0 T^k", maxdiff=float(np.max(np.abs(series - want))))
-    require(pf.shape == (n,) and np.max(np.abs(pf - rows[-1])) <= 1e-12 * TS, "final populations are not p0 T^(n_steps-1)",
+    require(pf.shape == (n,) and np.max(np.abs(pf - rows[-1])) <= 1e-12 * TS * TSK, "final populations are not p0 T^(n_steps-1)",
             got=pf.tolist(), want=rows[-1].tolist())
-    require(abs(pf.sum() - 1) <= 1e-12 * TS, "populations no longer sum to one")
-    cl = ["family=" + case["family"], "fmt=" + case["fmt"], "observable=%s" % (obs is not None),
+    require(abs(pf.sum() - 1) <= 1e-12 * TS * TSK, "populations no longer sum to one")
+    cl = ["p0_kind=" + kind, "family=" + case["family"], "fmt=" + case["fmt"], "observable=%s" % (obs is not None),
           "n_steps=%s" % ("1" if ns == 1 else "2" if ns == 2 else ">=3"), "n=%s" % ("1" if n == 1 else ">=2")]
     return Info(n >= 2 and ns >= 3, cl)
 
 
 # --------------------------------------------------------------------------
 
+# --------------------------------------------------------------------------
+# clause 1b: the estimator and the function pipeline treat missing frames (-1 anywhere, not only trailing) alike
+
+@st.composite
+def holes_case(draw):
+    c = draw(assign_case())
+    c["how"] = "padded"
+    c["trim"] = True
+    c["method"] = draw(st.sampled_from(["name:normalize", "fn:normalize", "name:transpose"]))
+    holes = []
+    for t in c["trajs"]:
+        k = draw(st.integers(0, 3))
+        holes.append(sorted(set(draw(st.lists(st.integers(0, len(t)), min_size=k, max_size=k)))))
+    c["holes"] = holes
+    return c
+
+
+def run_pipeline_holes(case):
+    """Pure differential clause (the statement: same counts / T / populations / mapping as composing the functions with
+    the same settings): -1 entries in the interior or at the start of a trajectory are dropped by the counting function,
+    so the estimator must see exactly the same frames."""
+    lag = case["lag"]
+    trajs = []
+    for t, hs in zip(case["trajs"], case["holes"]):
+        t = list(t)
+        for h in sorted(hs, reverse=True):
+            t.insert(h, -1)
+        trajs.append(t)
+    m_len = max(len(t) for t in trajs)
+    a = -np.ones((len(trajs), m_len), dtype=np.int64)
+    for i, t in enumerate(trajs):
+        a[i, :len(t)] = t
+    fn = method_fn(case["method"])
+    with np.errstate(all="ignore"):
+        m = fit_msm(case, a, lag)
+        C = assigns_to_counts(a, lag, max_n_states=case["max_n_states"], sliding_window=case["sliding"])
+        mp, C = trim_disconnected(C)
+        Cp, Tp, pip = fn(C)
+    require(mapping_dict(m.mapping_) == mapping_dict(mp), "state mapping differs from the function pipeline (holes)",
+            got=mapping_dict(m.mapping_), want=mapping_dict(mp))
+    Cm, Tm, pim = dense(m.tcounts_), dense(m.tprobs_), np.asarray(m.eq_probs_)
+    require(Cm.shape == dense(Cp).shape and np.array_equal(Cm, dense(Cp)),
+            "MSM counts differ from the function pipeline when trajectories contain -1 before assigned frames",
+            got=Cm.tolist(), want=dense(Cp).tolist(), assigns=a.tolist(), lag=lag, sliding=case["sliding"],
+            max_n_states=case["max_n_states"])
+    same = lambda x, y: np.shape(x) == np.shape(y) and bool(np.allclose(x, y, rtol=1e-12, atol=1e-12, equal_nan=True))
+    require(same(Tm, dense(Tp)), "MSM transition probabilities differ from the function pipeline (holes)")
+    require(same(pim, np.asarray(pip)), "MSM populations differ from the function pipeline (holes)")
+    n_holes = sum(len(h) for h in case["holes"])
+    interior = any(0 < h for t, hs in zip(case["trajs"], case["holes"]) for h in hs)
+    return Info(n_holes >= 1 and (not case["sliding"] or case["max_n_states"] is not None),
+                ["holes=%d" % min(n_holes, 3), "interior_hole=%s" % interior, "sliding=%s" % case["sliding"],
+                 "mns=%s" % (case["max_n_states"] is not None), "lag=%d" % min(lag, 3)])
+
+
 CLAUSES = [
     Clause("pipeline", assign_case(), run_pipeline, quick=640, thorough=8000, exhaustive=exhaustive_configs,
            doc="MSM(**cfg).fit(a) == builder(trim?(assigns_to_counts(a, lag, sliding, max_n_states)))"),
+    Clause("pipeline_missing_frames", holes_case(), run_pipeline_holes, quick=320, thorough=4000,
+           doc="MSM.fit == function pipeline also when -1 entries precede assigned frames"),
     Clause("roundtrip", assign_case(), run_roundtrip, quick=320, thorough=4000,
            doc="MSM.load(m.save(dir)) equals m (config, mapping, counts, T, populations, ==)"),
     Clause("pipeline_large", assign_case(max_core=12, max_lag=8), run_pipeline, quick=0, thorough=2400,
